@@ -260,6 +260,9 @@ func (r *Runner) runItem(it *spec.Item) {
 	hasCap := g.Has(ag.Cap)
 	inputs := Inputs(decodeSyms(it, it.Sigma), it.MaxLen, decodeSyms(it, it.Extra))
 	entries := append([]string{""}, userRules(g)...)
+	if len(it.Entries) > 0 {
+		entries = append([]string{""}, it.Entries...)
+	}
 	flags := it.Flags
 	if len(flags) == 0 {
 		flags = []bool{false}
